@@ -1388,6 +1388,15 @@ impl Function {
         while instruction_ptr < self.instructions.len() {
             let instruction = &self.instructions[instruction_ptr];
 
+            #[cfg(mscript_verif)]
+            crate::verif::trace(
+                &self.get_qualified_name(),
+                instruction_ptr,
+                instruction.id,
+                context.frames_count(),
+                context.stack_size(),
+            );
+
             // queries the function pointer associated with the instruction,
             // and gives it ownership of the instruction.
             query!(&mut context, instruction)
@@ -1503,6 +1512,11 @@ impl Function {
         current_frame.borrow_mut().pop();
 
         Ok(ReturnValue::NoValue)
+    }
+
+    #[cfg(mscript_verif)]
+    pub(crate) fn verif_instructions(&self) -> &[Instruction] {
+        &self.instructions
     }
 
     /// Get a function's name.
